@@ -9,13 +9,13 @@ ENGINES = [
     {"name": "cobweb-facts", "path": "driver/", "serves_properties": ALL,
      "kind_free_text": "E1: rustc_private driver (RUSTC_WORKSPACE_WRAPPER under cargo +nightly check) dumping resolved MIR, ADTs, impls, visibility of /repo's current tree as JSON facts; decides nothing"},
     {"name": "rules", "path": "rules/", "serves_properties": ALL,
-     "kind_free_text": "E2: Python rule engine over the MIR facts: CFG/dominators, must-pass-through and path-counting rules (intra- and interprocedural), local provenance, loop shapes and canonical collection sources, variant-arm association, call graph / who-may-call, sibling cross-checks; the deciding step of every check"},
+     "kind_free_text": "E2: Python rule engine over the MIR facts: CFG/dominators, must-pass-through and path-counting rules (intra- and interprocedural), local provenance, loop shapes and canonical collection sources, variant-arm association, call graph / who-may-call, sibling cross-checks, symbolic sequence algebra for the FIFO wrapper, semantics-preserving view normalisations (helper inlining, variant threading, arm splitting, parameter un-bundling); the deciding step of every check"},
     {"name": "witness", "path": "witness/", "serves_properties": ["C02", "C03", "C04", "C05", "C06", "C07", "C09", "C10", "C13", "C14", "C16"],
      "kind_free_text": "E3 (thorough tier): rustdoc compile_fail,E0xxx witnesses with compiling twins, path-depending on /repo (cargo +nightly test --doc --offline)"},
     {"name": "clippy-xref", "path": "clippy/", "serves_properties": ["C07", "C18"],
      "kind_free_text": "E4 (thorough tier): clippy disallowed-methods as an independent type-resolved enumeration of the deny-listed call sites; must agree site-for-site with the MIR enumeration, decides nothing"},
     {"name": "selftest", "path": "mutants/ seeded/", "serves_properties": ALL,
-     "kind_free_text": "E5 (thorough tier): checker self-validation on scratch copies: breaking variants and independently seeded changes must fire, benign variants must stay silent; failure is exit 2 (no verdict), never a VIOLATION"},
+     "kind_free_text": "E5 (thorough tier): checker self-validation on scratch copies: hand-written and sweep-derived breaking variants and independently seeded changes must fire, benign refactorings (mine and agent-made) must stay silent; failure is exit 2 (no verdict), never a VIOLATION. bin/sweep (systematic single-site mutation sweep) and bin/corpus (cached-facts regression) are development aids"},
 ]
 
 NOTES = ("Static analysis only: every verdict is computed from /repo's current source (type-checked MIR), nothing is executed. "
@@ -23,7 +23,7 @@ NOTES = ("Static analysis only: every verdict is computed from /repo's current s
 
 CHECKS = {
     "C02": {
-        "technique": "MIR typestate / must-pass-through and path-counting rules on every path of the system-command runner, its replay closure and the three Command::apply impls; who-may-call via resolved call graph",
+        "technique": "MIR typestate / must-pass-through and path-counting rules on every path of the system-command runner, its replay (closure form or position-scan loop form) and the three Command::apply impls; who-may-call via resolved call graph; role-resolved anchors; semantics-preserving view normalisations (new-helper inlining with variant threading, arm splitting, parameter un-bundling) tried when the plain view alarms",
         "text": "Path-exhaustive structural check of the runner protocol (one disposition per path, callback conserved, postponed commands never lost, one in-line runner call per command). Proves these clauses for every CFG path of the current source; does not prove the behavioural statement over all trees.",
         "note": TRUSTED + "Not decided: Bevy reaching each queued command; termination; flush completeness.",
     },
@@ -40,7 +40,7 @@ CHECKS["C04"] = {
     "note": TRUSTED + "Not decided: user-supplied SystemCommandCallback::with closures; visibility over whole trees needs Bevy's flush order (trusted). One named exception (ReactCommands::once outer closure, already-taken arm).",
 }
 CHECKS["C12"] = {
-    "technique": "container-operation classification over MIR: every call whose receiver derives from a pending list / the postponed queue is classified against a frozen order table (append-at-back, first-match search, order-preserving removal)",
+    "technique": "symbolic sequence algebra over MIR (every path of every postponed-queue method is executed symbolically on sequence-valued places and compared with the contract of the method's signature role: attach = existing++argument, detach, push, pop, spare buffers stored empty) plus container-operation classification of the pending lists and the replay traversal against a frozen order table",
     "text": "Decides that every container between 'sent' and 'seen' is FIFO on every path: any order-destroying or unclassified operation on the four pending lists, the postponed queue or the replay traversal is reported with its call site. Fired on the pinned tree (swap_remove, F1), repaired by fix commit 4d2420e; re-fires if it returns.",
     "note": TRUSTED + "Not decided: 'each with its own data' for mixed kinds (C03 finding F3); Bevy's FIFO command application.",
 }
@@ -62,7 +62,7 @@ CHECKS["C06"] = {
 }
 
 CHECKS["C07"] = {
-    "technique": "ownership analysis over MIR and the ADT table: type walk for holder fields, release-operation classification per holder, expected-zero deny-list of leak primitives, move/borrow/drop typestate of the prepared handle, provenance classification of every despawn call site",
+    "technique": "ownership analysis over MIR and the ADT table: transitive type walk for holder fields, release-operation classification per holder, linearity of every by-value ReactorHandle parameter (stored or forwarded on every path), expected-zero deny-list of leak primitives, move/borrow/drop typestate of the prepared handle, provenance classification of every despawn call site",
     "text": "Decides where clones of the ref-counted reactor handle can live and that each such place has a release; that the mode selects the handle kind; that registration only lends the handle and clones once per queued registration; that the despawn reaction moves handles and clears the slot it fills; that no despawn call takes its entity from a handle, a sys_command() result or a table entry.",
     "note": TRUSTED + "Not decided: the count over histories (Arc's count given the decided clauses); when GC runs.",
 }
@@ -109,7 +109,7 @@ CHECKS["C16"] = {
     "note": TRUSTED + "Not decided: histories over several entities; value of the data.",
 }
 CHECKS["C17"] = {
-    "technique": "take-run-put-back typestate (path counting + must-pass-through) on syscall_with_validation, named_syscall, named_syscall_direct, spawned_syscall; key-origin agreement; generic-argument facts for the cache key",
+    "technique": "take-run-put-back typestate (path counting + must-pass-through) on syscall_with_validation, named_syscall, named_syscall_direct, spawned_syscall; key-origin agreement; generic-argument facts for the cache key; create-initialize-run lifecycle rule; sibling agreement of the deferred / forwarding syscall variants",
     "text": "Decides on every path of the four entry points that the cached system is taken, run exactly once with its deferred commands applied, and put back under the same key (system type / name+type / spawned id); that errors are returned before any run; that initialization happens only when not cached.",
     "note": TRUSTED + "Not decided: outputs; nested recursive calls beyond the documented warning. One named exception (`?` after run for CallbackSystem::Empty).",
 }
